@@ -4,7 +4,7 @@
 # from the offline wheelhouse.  Idempotent; runs offline.
 set -e
 cd "$(dirname "$0")"
-V=/verif/.venv
+V="$(pwd)/.venv"
 if [ ! -x "$V/bin/python" ] || ! "$V/bin/python" -c "import z3, numpy, scipy, mir_eval" >/dev/null 2>&1; then
   rm -rf "$V"
   /venv/bin/python -m venv "$V"
